@@ -905,8 +905,23 @@ impl C09 {
             }
         }
         // has_matching_origins <=> all authorities equal the base's
-        let base = match ctx.choose(3) {
+        let base = match ctx.choose(4) {
             0 => n.snapshot().uri().clone(),
+            3 => {
+                // the snapshot's authority with a port added, changed or taken
+                // away (never 443: whether "host" and "host:443" are the same
+                // authority is a matter of reading, RFC 6454 says same origin)
+                let text = n.snapshot().uri().as_str();
+                let rest = &text["https://".len()..];
+                let host = rest.split('/').next().unwrap_or("");
+                let other = match host.rsplit_once(':') {
+                    Some((h, port)) if port.chars().all(|c| c.is_ascii_digit()) && !port.is_empty() => {
+                        if ctx.chance(1, 2) { h.to_string() } else { format!("{}:{}", h, if port == "8444" { "8445" } else { "8444" }) }
+                    }
+                    _ => format!("{}:{}", host, [8443u32, 80, 1, 4430, 65535][ctx.choose(5) as usize]),
+                };
+                uri::Https::from_string(format!("https://{}/notification.xml", other)).unwrap_or_else(|_| n.snapshot().uri().clone())
+            }
             1 => {
                 // the snapshot's authority in another letter case
                 let text = n.snapshot().uri().as_str();
